@@ -320,7 +320,38 @@ def check_runs(case):
 
   for p in progs.all_phases(prog):
     ctx.hooks[p['id']] = entry_hook
-  test, tsarg = progs.build_test(prog, ctx, htf)
+  # one more phase at the end of every program: measurements whose validators keep state (a validator deriving from the
+  # documented base class; a plain stateful callable inside the built-in pivot validator).  Each accepts only the first
+  # value it ever sees, so it passes in every run exactly if every run validates with its own copy.
+  from openhtf.util import validators as _validators  # pylint: disable=g-import-not-at-top
+
+  class FirstValueOnly(_validators.ValidatorBase):
+    def __init__(self):
+      self.seen = []
+
+    def __call__(self, value):
+      self.seen.append(value)
+      return len(self.seen) == 1
+
+  class FirstRowsOnly(object):
+    def __init__(self):
+      self.seen = []
+
+    def __call__(self, value):
+      self.seen.append(value)
+      return len(self.seen) == 1
+
+  declared_validators = [FirstValueOnly(), FirstRowsOnly()]
+
+  @htf.measures(htf.Measurement('vf_stateful').with_validator(declared_validators[0]),
+                htf.Measurement('vf_pivot').with_dimensions('x').with_validator(_validators.dimension_pivot_validate(declared_validators[1])))
+  def vf_stateful_validators(test_api):
+    test_api.measurements.vf_stateful = 42
+    test_api.measurements.vf_pivot[0] = 7
+
+  plug_map = progs.make_plug_classes(prog['plugs'], ctx, htf) if prog.get('plugs') else None
+  built = [progs.build_node(n, ctx, htf, plug_map) for n in prog['nodes']] + [vf_stateful_validators]
+  test, tsarg = progs.build_test(prog, ctx, htf, plug_map=plug_map, prebuilt_nodes=built)
   declared_md = nested_metadata()
   test.descriptor.metadata['station'] = declared_md
   entry_md, md_snaps = [], []
@@ -363,6 +394,10 @@ def check_runs(case):
     if fp(test.descriptor.phase_sequence) != tree_before:
       r.bad('C11/runs/descriptor-mutated-by-execute', 'run %d changed the declared tree\n before=%r\n after=%r' % (
           run, tree_before, fp(test.descriptor.phase_sequence)))
+      break
+    if any(v.seen for v in declared_validators):
+      r.bad('C11/runs/declared-validator-used-by-a-run', 'run %d validated with the validator objects the phase was declared with (state now %r): runs share them' % (
+          run, [v.seen for v in declared_validators]))
       break
   ctx.cancel.set()
   transient = any(pl.get('ctor') == 'raise-once' for pl in prog.get('plugs') or [])
